@@ -209,6 +209,8 @@ package jobs
 //@   ensures [at-most-one-sync] $syncCalls <= old($syncCalls) + 1
 //@   ensures [outcome-recorded] $syncCalls == old($syncCalls) + 1 ==> has($storeAttempted, j.id)
 //@   ensures [lock-released] $held == old($held)
+//@   at call Since#1 before
+//@     assert [C17,C11:the-error-handling-sees-exactly-the-error-the-pipeline-returned-also-after-a-kill] pipelineErr == err
 
 // ---------------------------------------------------------------------------
 // C17: bounded re-runs: one failure schedules at most one re-run and consumes one retry at scheduling time
